@@ -316,7 +316,9 @@ fn c05_alpha<A: Alphabet>(rng: &mut Rng, tier: &str, fails: &mut Vec<String>, n:
             chk!("EncodedSequence::encode", EncodedSequence::<A>::encode(&inp));
             // other entry points: FromStr, encode_into with a caller buffer (every backend), and the container API of the result
             if let Ok(txt) = std::str::from_utf8(&inp) { chk!("FromStr", txt.parse::<EncodedSequence<A>>()); }
-            macro_rules! into { ($name:expr, $p:expr) => {{ let p = $p; chk!(concat!($name, "/encode_into"), { let mut dst = vec![A::default_symbol(); inp.len()]; p.encode_into(&inp, &mut dst).map(|_| EncodedSequence::<A>::new(dst)) }); }}; }
+            // the destination is the front part of a LARGER buffer holding a recognisable symbol (the first one): nothing past the
+            // destination slice may be written (a vector store that runs one lane too far lands there)
+            macro_rules! into { ($name:expr, $p:expr) => {{ let p = $p; chk!(concat!($name, "/encode_into"), { let mut big = vec![A::symbols()[0]; inp.len() + 40]; let l_ = inp.len(); let r_ = p.encode_into(&inp, &mut big[..l_]); if big[l_..].iter().any(|x| *x != A::symbols()[0]) { panic!("encode_into wrote past the end of the destination slice"); } big.truncate(l_); r_.map(|_| EncodedSequence::<A>::new(big)) }); }}; }
             into!("generic", Pipeline::<A, _>::generic()); into!("sse2", Pipeline::<A, _>::sse2().unwrap()); into!("dispatch", Pipeline::<A, _>::dispatch());
             if let Ok(p) = Pipeline::<A, _>::avx2() { into!("avx2", p); }
             if let (Ok(w), Ok(e)) = (&want, EncodedSequence::<A>::encode(&inp)) {
